@@ -18,7 +18,19 @@ pub struct Outcome {
 }
 
 pub fn evaluate(lines: &[String]) -> Result<Outcome, String> {
-    let txt = file_of(lines);
+    evaluate_in_mode(lines, None)
+}
+
+fn file_in_mode(lines: &[String], mode: Option<u8>) -> String {
+    match mode {
+        None => file_of(lines),
+        Some(m) => format!("osu file format v14\n\n[General]\nMode: {m}\n\n[HitObjects]\n{}\n", lines.join("\n")),
+    }
+}
+
+/// the grammar does not depend on the game mode: the same model must hold under every `Mode` declared before
+pub fn evaluate_in_mode(lines: &[String], mode: Option<u8>) -> Result<Outcome, String> {
+    let txt = file_in_mode(lines, mode);
     let ho: HitObjects = rosu_map::from_str(&txt).map_err(|e| format!("decode error {e}"))?;
     let mut ctx = LineCtx::default();
     let mut model: Vec<MObj> = vec![];
@@ -247,6 +259,14 @@ fn genline(t: &mut Tape, clock: &mut i64) -> String {
     l
 }
 
+/// the mode choice is read after the lines, so tapes without it mean "no Mode line"
+fn gen_mode_opt(t: &mut Tape) -> Option<u8> {
+    match t.below(5) {
+        0 => None,
+        k => Some((k - 1) as u8),
+    }
+}
+
 pub fn gen_lines(t: &mut Tape) -> Vec<String> {
     let nl = 1 + t.below(6);
     let mut clock = t.int(0, 40) * 250;
@@ -260,18 +280,20 @@ pub fn run(ctx: &mut Ctx) {
     ctx.assumptions.push("files have no [TimingPoints], so the default sample point (Normal, 100, 0) fills unspecified bank / volume / index; objects are aligned by stable time order (C15 checks that rule itself)".into());
     crate::props::replay_regress_generic(ctx, replay);
 
-    ctx.enumerate("256 type bytes x 256 sound bytes x 4 suffixes x {first, after spinner}", 65536 * 4 * 2, |i, st| {
+    ctx.enumerate("256 type bytes x 256 sound bytes x 4 suffixes x {first; after a spinner in modes 0..3}", 65536 * 4 * 5, |i, st| {
         let ty = i % 256;
         let snd = (i / 256) % 256;
         let suf = SUFFIXES[((i / 65536) % 4) as usize];
-        let after_spinner = i / (65536 * 4) == 1;
+        let k = i / (65536 * 4);
+        let after_spinner = k >= 1;
+        let mode = if k >= 1 { Some((k - 1) as u8) } else { None };
         let mut lines = vec![];
         if after_spinner {
             lines.push("256,192,500,12,0,800".to_string());
         }
         lines.push(format!("100,120,1000,{ty},{snd}{suf}"));
         st.eval();
-        match evaluate(&lines) {
+        match evaluate_in_mode(&lines, mode) {
             Ok(o) => {
                 if o.accepted > usize::from(after_spinner) {
                     st.nontrivial_distinct();
@@ -281,15 +303,16 @@ pub fn run(ctx: &mut Ctx) {
                 }
                 Ok(())
             }
-            Err(m) => Err(Fail::new(m, "osu", file_of(&lines).into_bytes())),
+            Err(m) => Err(Fail::new(m, "osu", file_in_mode(&lines, mode).into_bytes())),
         }
     });
 
     let cases = ctx.tier.pick(600_000u64, 6_000_000u64);
     ctx.pbt("c14-random", cases, 500, |t, st| {
         let lines = gen_lines(t);
+        let mode = gen_mode_opt(t);
         st.eval();
-        match evaluate(&lines) {
+        match evaluate_in_mode(&lines, mode) {
             Ok(o) => {
                 if o.nontrivial {
                     let fresh = st.nontrivial(hash64(&lines));
@@ -301,16 +324,27 @@ pub fn run(ctx: &mut Ctx) {
                 st.label_n("rejected lines", (lines.len() - o.accepted.min(lines.len())) as u64);
                 st.label_n("sliders", o.sliders as u64);
                 st.label_n("multi-segment sliders", o.multiseg as u64);
+                st.label(match mode {
+                    None => "no Mode line",
+                    Some(0) => "Mode: 0",
+                    Some(1) => "Mode: 1",
+                    Some(2) => "Mode: 2",
+                    _ => "Mode: 3",
+                });
                 Ok(())
             }
-            Err(m) => Err(Fail::new(m, "osu", file_of(&lines).into_bytes())),
+            Err(m) => Err(Fail::new(m, "osu", file_in_mode(&lines, mode).into_bytes())),
         }
     });
 }
 
 pub fn replay(_ctx: &mut Ctx, ext: &str, bytes: &[u8]) -> Result<Option<String>, Fail> {
+    let mut mode = None;
     let lines: Vec<String> = if ext == "tape" {
-        gen_lines(&mut Tape::new(bytes))
+        let mut t = Tape::new(bytes);
+        let l = gen_lines(&mut t);
+        mode = gen_mode_opt(&mut t);
+        l
     } else {
         let text = String::from_utf8_lossy(bytes).into_owned();
         let mut in_ho = false;
@@ -322,11 +356,13 @@ pub fn replay(_ctx: &mut Ctx, ext: &str, bytes: &[u8]) -> Result<Option<String>,
             }
             if in_ho {
                 v.push(l.to_string());
+            } else if let Some(m) = l.strip_prefix("Mode: ") {
+                mode = m.trim().parse().ok();
             }
         }
         v
     };
-    evaluate(&lines).map(|_| None).map_err(|m| Fail::new(m, "osu", file_of(&lines).into_bytes()))
+    evaluate_in_mode(&lines, mode).map(|_| None).map_err(|m| Fail::new(m, "osu", file_in_mode(&lines, mode).into_bytes()))
 }
 
 pub fn genline_pub(t: &mut Tape, clock: &mut i64) -> String {
@@ -336,16 +372,24 @@ pub fn genline_pub(t: &mut Tape, clock: &mut i64) -> String {
 /// Text-level entry of the `grammar` fuzz target: arbitrary text as the body of [HitObjects].
 /// Ok(false) = outside the line-level domain (a line would be taken for a section header or is framed
 /// differently than this module assumes - framing is C05's business).
-pub fn fuzz_text(text: &str) -> Result<bool, Fail> {
+pub fn fuzz_text(sel: u8, text: &str) -> Result<bool, Fail> {
     use crate::refmodel::framing::frame;
     use rosu_map::section::Section;
+    let mode = match sel % 5 {
+        0 => None,
+        k => Some(k - 1),
+    };
     let lines: Vec<String> = text.split('\n').map(|l| l.to_string()).collect();
-    let file = file_of(&lines);
+    let file = file_in_mode(&lines, mode);
     let fr = frame(&file);
     let expect: Vec<&str> = lines.iter().map(|l| l.trim_end()).filter(|tl| !tl.is_empty() && !tl.trim_start().starts_with("//")).collect();
-    let same = fr.version == 14 && fr.trace.len() == expect.len() && fr.trace.iter().zip(&expect).all(|((s, l), e)| *s == Section::HitObjects && l == e);
+    let prefix = usize::from(mode.is_some());
+    let same = fr.version == 14
+        && fr.trace.len() == prefix + expect.len()
+        && fr.trace[..prefix].iter().all(|(s, _)| *s == Section::General)
+        && fr.trace[prefix..].iter().zip(&expect).all(|((s, l), e)| *s == Section::HitObjects && l == e);
     if !same {
         return Ok(false);
     }
-    evaluate(&lines).map(|_| true).map_err(|m| Fail::new(m, "osu", file.into_bytes()))
+    evaluate_in_mode(&lines, mode).map(|_| true).map_err(|m| Fail::new(m, "osu", file.into_bytes()))
 }
